@@ -6,6 +6,16 @@
  *                                        CA keys created by each thread, R operations per thread
  *   c10_tls_lib stale                    the witness of the stale-value finding and its guarded variant
  *   c10_tls_lib full                     exhaustion: 1024 creates succeed, the 1025th fails, reuse
+ *   c10_tls_lib memo W ITER SEED         W workers; three families of short programs through the exported
+ *                                        functions, ITER iterations each (log lines S1 / S2 / S3):
+ *       S1  a thread stores under K and returns, is joined; the next thread (it gets the recycled descriptor)
+ *           READS K (and a second key) before it ever stores:       S1 <it> <key> <w_a> <w_b> <read1> <read2>
+ *       S2  a thread stores and reads K, then spins without touching TLS while ANOTHER thread (main, usually
+ *           stolen by another worker) deletes K and creates a key again (same index); then it reads the new
+ *           key:                                                    S2 <it> <k_old> <k_new> <w_holder> <w_main> <read>
+ *       S3  a thread stores v1, creates a child that spins (the parent is usually stolen by another worker),
+ *           stores v2, releases the child and joins it (usually resumed on the child's worker), reads:
+ *                                                                   S3 <it> <key> <w1> <w2> <w3> <v2> <read>
  *
  * Phases of "run" (creates and deletes never run concurrently with each other, so the ABA window of
  * the key free list cannot occur by accident):
@@ -24,6 +34,7 @@
 #include <string.h>
 #include <errno.h>
 #include <stdint.h>
+#include <time.h>
 #include "myth/myth.h"
 
 static uint64_t sm_next(uint64_t * s) {
@@ -209,7 +220,90 @@ static int full(void) {
   return 0;
 }
 
+/* ---------------- memo: reads by threads that never stored, cross-worker delete, store/migrate/store ---- */
+static myth_key_t m_key, m_key2;
+static volatile int m_flag, m_flag2;
+static volatile long m_w[4]; static volatile unsigned long m_r[2];
+static void spin_us(long us) { struct timespec a, b; clock_gettime(CLOCK_MONOTONIC, &a);
+  do { clock_gettime(CLOCK_MONOTONIC, &b); } while ((b.tv_sec - a.tv_sec) * 1000000L + (b.tv_nsec - a.tv_nsec) / 1000 < us); }
+static int wait_flag(volatile int * f, long max_us) { struct timespec a, b; clock_gettime(CLOCK_MONOTONIC, &a);
+  while (!*f) { clock_gettime(CLOCK_MONOTONIC, &b);
+    if ((b.tv_sec - a.tv_sec) * 1000000L + (b.tv_nsec - a.tv_nsec) / 1000 > max_us) return 0; }
+  return 1; }
+
+static void * s1_store(void * a) { m_w[0] = myth_get_worker_num(); myth_setspecific(m_key2, (void *)(unsigned long)a + 1);
+  myth_setspecific(m_key, a); (void)myth_getspecific(m_key); return 0; }
+static void * s1_read(void * a) { (void)a; m_w[1] = myth_get_worker_num();
+  m_r[0] = (unsigned long)myth_getspecific(m_key); m_r[1] = (unsigned long)myth_getspecific(m_key2); return 0; }
+
+static void * s2_holder(void * a) {
+  m_w[0] = myth_get_worker_num();
+  myth_setspecific(m_key, a); (void)myth_getspecific(m_key);
+  m_flag = 1;                                   /* main may now delete + re-create */
+  if (!wait_flag(&m_flag2, 200000)) { while (!m_flag2) myth_yield(); }   /* no TLS access meanwhile */
+  m_r[0] = (unsigned long)myth_getspecific(m_key);          /* m_key is the NEW key by now */
+  return 0;
+}
+
+static void * s3_child(void * a) { (void)a; m_w[3] = myth_get_worker_num();
+  if (!wait_flag(&m_flag, 200000)) { while (!m_flag) myth_yield(); }
+  spin_us(300);                                 /* let the parent block in its join */
+  return 0; }
+static void * s3_parent(void * a) {
+  unsigned long v1 = (unsigned long)a, v2 = v1 + 1; myth_thread_t c;
+  m_w[0] = myth_get_worker_num();
+  myth_setspecific(m_key, (void *)v1); (void)myth_getspecific(m_key);
+  m_flag = 0;
+  c = myth_create(s3_child, 0);                 /* child first: this thread is pushed and usually stolen */
+  m_w[1] = myth_get_worker_num();
+  myth_setspecific(m_key, (void *)v2);
+  m_flag = 1;
+  myth_join(c, 0);                              /* usually resumed by the exiting child, on its worker */
+  m_w[2] = myth_get_worker_num();
+  m_r[0] = (unsigned long)myth_getspecific(m_key);
+  m_r[1] = v2;
+  return 0;
+}
+
+static int memo(int W, int iters, uint64_t seed) {
+  myth_globalattr_t ga[1]; int it; uint64_t s = seed;
+  myth_globalattr_init(ga); myth_globalattr_set_n_workers(ga, W); myth_init_ex(ga);
+  printf("init W=%d workers=%d\n", W, myth_get_num_workers());
+  { int pad = (int)(sm_next(&s) % 40), i; myth_key_t k; for (i = 0; i < pad; i++) myth_key_create(&k, 0); }
+  for (it = 0; it < iters; it++) {
+    unsigned long v = ((sm_next(&s) >> 8) | 1UL) & 0xFFFFFFFFFFFFUL; myth_thread_t t;
+    myth_key_create(&m_key, 0); myth_key_create(&m_key2, 0);
+    t = myth_create(s1_store, (void *)v); myth_join(t, 0);
+    t = myth_create(s1_read, 0); myth_join(t, 0);
+    printf("S1 %d %d %ld %ld %lu %lu\n", it, m_key, m_w[0], m_w[1], m_r[0], m_r[1]);
+    myth_key_delete(m_key); myth_key_delete(m_key2);
+  }
+  for (it = 0; it < iters && W >= 2; it++) {
+    unsigned long v = ((sm_next(&s) >> 8) | 1UL) & 0xFFFFFFFFFFFFUL; myth_thread_t t; myth_key_t old;
+    myth_key_create(&m_key, 0); old = m_key; m_flag = m_flag2 = 0;
+    t = myth_create(s2_holder, (void *)v);
+    while (!m_flag) myth_yield();
+    m_w[1] = myth_get_worker_num();
+    myth_key_delete(m_key); myth_key_create(&m_key, 0);
+    m_flag2 = 1;
+    myth_join(t, 0);
+    printf("S2 %d %d %d %ld %ld %lu\n", it, old, m_key, m_w[0], m_w[1], m_r[0]);
+    myth_key_delete(m_key);
+  }
+  for (it = 0; it < iters && W >= 2; it++) {
+    unsigned long v = ((sm_next(&s) >> 8) | 1UL) & 0xFFFFFFFFFFFFUL; myth_thread_t t;
+    myth_key_create(&m_key, 0);
+    t = myth_create(s3_parent, (void *)v); myth_join(t, 0);
+    printf("S3 %d %d %ld %ld %ld %lu %lu\n", it, m_key, m_w[0], m_w[1], m_w[2], m_r[1], m_r[0]);
+    myth_key_delete(m_key);
+  }
+  myth_fini();
+  printf("done\n");
+  return 0;
+}
+
 int main(int argc, char ** argv) {
+  if (argc >= 5 && !strcmp(argv[1], "memo")) return memo(atoi(argv[2]), atoi(argv[3]), strtoull(argv[4], 0, 10));
   if (argc >= 2 && !strcmp(argv[1], "stale")) return stale();
   if (argc >= 2 && !strcmp(argv[1], "full")) return full();
   if (argc >= 8 && !strcmp(argv[1], "run")) {
